@@ -444,3 +444,329 @@ def run_mastereq(inp):
                                                           f"columns {cols.tolist()} vs {exp_cols.tolist()}; L={length} terms={terms} procs={procs}"},
                     "sig": f"me-step-{mode}:{shape}:{sample}:{branch.split()[0]}", "nontrivial": nontriv})
     return out
+
+
+# ======================================================================================================================
+# extension 2 — everything that can be observed of one pass of the MCWF loop vs `Model.MasterEqExec` (kinds `me2-*`)
+# ======================================================================================================================
+"""(appended) kind `mastereq-step`, driver requests `mcwfstep2` / `purerho`.
+
+One pass of the REAL `mcwf` (grid of two points) with every collaborator observed:
+  * `expm_arnoldi` spied; in the *forced* flavours its return value is REPLACED by a vector with small dyadic entries, so that
+    `norm_sq`, `p_jump = 1.0 - norm_sq` are exact in binary64 and the draw can be put ON the boundary: `r = p_jump` exactly,
+    the float just below, the float just above; also `p_jump = 0` with `r = 0.0` and `p_jump < 0`                  -> me2-boundary
+  * `np.random.default_rng` replaced by a recording generator (`r`, and the `k` answered to `choice(n, p=pv)`)
+  * `ctx.jump_ops` replaced by recording wrappers: every product `op @ v` is logged with its index AND its argument; the
+    argument must be the start-of-step state, bit for bit (oracle), the index sequence is the model's `opCalls`
+  * `get_state=True`: `ctx.output_state` after the pass, compared as `|psi><psi|` with the model's rational `postRho`
+  * the returned array against `oneStepCols`
+flavours: boundary (above) · zero (basis state, lowering AND raising on the same site plus further processes: exact zeros in the
+vector handed to `choice`, two processes on one site, non-Hermitian operators) -> me2-zero · tiny (strengths of order 1e-15 on a
+basis state: the `normalization_sum < 1e-15` test decided at its own scale, both sides) -> me2-tiny · random (random complex
+state, real propagation, r at 0.5..0.999 resp. 1.001..2 times p_jump) -> me2-jump / me2-nojump.
+`me2-rho0`: the `y0` the REAL `lindblad` hands to `solve_ivp` (complex product state) against `pureRho` of the REAL
+`preprocess_mcwf(...).psi_initial` — `np.outer(psi, psi.conj())`, and both solvers start from the same state.
+oracle: independent operator table / `scipy.linalg.expm`: weights from the PRE-step state, new state = normalised `L_k psi`
+resp. normalised propagated state, columns = initial resp. NEW state, branch decided on the reference away from the boundary.
+"""
+import math  # noqa: E402
+
+
+class _Stop(Exception):
+    pass
+
+
+def _product_state(rng, length):
+    """random complex product state: (MPS with explicit tensors, reference vector with site 0 leftmost)"""
+    tensors, ref = [], np.ones(1, complex)
+    for _ in range(length):
+        v = np.array([complex(rng.randrange(-4, 5), rng.randrange(-4, 5)) for _ in range(2)])
+        if not v.any():
+            v[rng.randrange(2)] = 1
+        v = v / np.linalg.norm(v)
+        tensors.append(v.reshape(2, 1, 1).copy())
+        ref = np.kron(ref, v)
+    return MPS(length, tensors=tensors), ref
+
+
+def _dyadic_vec(rng, dim, target):
+    """vector with entries k/8 (k complex integer) whose squared norm is exactly `target` (a multiple of 1/64)"""
+    need = round(target * 64)
+    v = np.zeros(dim, complex)
+    for _ in range(200):
+        ks = [[rng.randrange(-5, 6), rng.randrange(-5, 6)] for _ in range(dim)]
+        tot = sum(a * a + b * b for a, b in ks)
+        if tot == need:
+            return np.array([complex(a, b) / 8 for a, b in ks])
+    # fall back: put everything on one or two components (need = a^2 + b^2 + c^2 + d^2 always solvable: Lagrange)
+    for a in range(int(math.isqrt(need)), -1, -1):
+        for b in range(a + 1):
+            for c in range(b + 1):
+                d2 = need - a * a - b * b - c * c
+                if d2 < 0:
+                    continue
+                d = math.isqrt(d2)
+                if d * d == d2:
+                    v[0] = complex(a, b) / 8
+                    v[1 % dim] += complex(c, d) / 8 if dim > 1 else 0
+                    if dim > 1 or (c == 0 and d == 0):
+                        return v
+    raise RuntimeError("no dyadic vector")
+
+
+def _one_pass(ctx, psi0, r_policy, k_policy, forced_next=None):
+    """run the REAL mcwf for one pass with all collaborators observed; returns the record"""
+    rec = {"next": [], "r": [], "choice": [], "calls": [], "args_ok": True, "raised": None}
+
+    class OpSpy:
+        def __init__(self, idx, op):
+            self.idx, self.op = idx, op
+
+        def __matmul__(self, v):
+            rec["calls"].append(self.idx)
+            if not (isinstance(v, np.ndarray) and v.shape == psi0.shape and np.array_equal(v, psi0)):
+                rec["args_ok"] = False
+            return self.op @ v
+
+        def __getattr__(self, name):
+            return getattr(self.op, name)
+
+    class FakeRng:
+        def random(self):
+            nxt = rec["next"][-1]
+            pj = 1.0 - np.vdot(nxt, nxt).real
+            r = float(r_policy(pj))
+            rec["r"].append(r)
+            return r
+
+        def choice(self, n, p=None):
+            p = np.array(p, dtype=float)
+            k = int(k_policy(p))
+            rec["choice"].append((int(n), p, k))
+            return k
+
+    shim = types.SimpleNamespace(default_rng=lambda *a, **k: FakeRng())
+
+    class NpShim:
+        random = shim
+
+        def __getattr__(self, name):
+            return getattr(np, name)
+
+    orig_exp, orig_np, orig_ops = mcwf_mod.expm_arnoldi, mcwf_mod.np, ctx.jump_ops
+
+    def spy_exp(*a, **k):
+        v = orig_exp(*a, **k)
+        if forced_next is not None:
+            v = np.array(forced_next, dtype=complex)
+        rec["next"].append(np.array(v))
+        return v
+
+    ctx.psi_initial = psi0.copy()
+    ctx.output_state = None
+    ctx.jump_ops = [OpSpy(i, op) for i, op in enumerate(orig_ops)]
+    mcwf_mod.expm_arnoldi, mcwf_mod.np = spy_exp, NpShim()
+    try:
+        rec["cols"] = np.asarray(mcwf_mod.mcwf((0, ctx)))
+    except Exception as e:  # noqa: BLE001  (a pass that raises is a verdict about the code, not a harness crash)
+        rec["raised"] = f"{type(e).__name__}: {e}"
+    finally:
+        mcwf_mod.expm_arnoldi, mcwf_mod.np, ctx.jump_ops = orig_exp, orig_np, orig_ops
+    rec["out"] = None if ctx.output_state is None else np.array(ctx.output_state)
+    return rec
+
+
+def run_mastereq_step(inp):
+    rng = random.Random(inp["sub"])
+    flavour = inp.get("flavour") or rng.choice(["boundary", "boundary", "zero", "tiny", "random", "random"])
+    length = int(inp.get("L") or rng.choice([2, 2, 3]))
+    dim = 2**length
+    terms = [(float(c), str(s)) for c, s in inp["terms"]] if "terms" in inp else rand_terms(rng, length)
+    basis = None
+    if "procs" in inp:
+        procs = [(str(n), list(s), float(g)) for n, s, g in inp["procs"]]
+    elif flavour == "zero":
+        s0 = rng.randrange(length)
+        procs = [("lowering", [s0], rng.choice([0.3, 0.7, 1.1])), ("raising", [s0], rng.choice([0.2, 0.5, 0.9]))]
+        for _ in range(rng.randrange(0, 4)):
+            procs.append((rng.choice(["lowering", "raising", "pauli_z", "pauli_x"]), [rng.randrange(length)], rng.choice([0.0, 0.25, 0.6])))
+        if length >= 2 and rng.random() < 0.6:
+            i = rng.randrange(length - 1)
+            procs.append((rng.choice(["lowering_two", "raising_two", "crosstalk_xy"]), [i, i + 1], rng.choice([0.15, 0.4])))
+        rng.shuffle(procs)
+    elif flavour == "tiny":
+        s0 = rng.randrange(length)
+        small = rng.choice([[3e-16, 4e-16], [6e-16, 6e-16], [2e-16], [2.5e-15], [9e-16, 9e-17, 0.0], [4e-16, 4e-16, 4e-16]])
+        procs = [(rng.choice(["pauli_z", "pauli_x", "pauli_y"]), [rng.randrange(length)], g) for g in small]
+        procs.append(("lowering", [s0], rng.choice([0.5, 1e-15])))  # annihilates the basis state chosen below
+        rng.shuffle(procs)
+        basis = [0] * length
+        for j in range(length):
+            if j != s0:
+                basis[j] = rng.randrange(2)
+    else:
+        procs = rand_procs(rng, length)
+        if not any(g > 0 for _, _, g in procs):
+            procs.append(("lowering", [rng.randrange(length)], 0.5))
+    if "basis" in inp:
+        basis = list(inp["basis"])
+    mpo = MPO()
+    mpo.from_pauli_sum(terms=terms, length=length)
+    nm = NoiseModel([{"name": n, "sites": list(s), "strength": g} for n, s, g in procs])
+    kept_ref = [(g, ref_operator(length, n, s)) for n, s, g in procs if g > 0]
+    h_ref = dense_h(length, terms)
+    ldl_ref = sum((g * (l_op.conj().T @ l_op) for g, l_op in kept_ref), np.zeros((dim, dim), complex))
+    heff_ref = h_ref - 0.5j * ldl_ref
+    shape = f"L{length}:n{len(procs)}:kept{len(kept_ref)}:two{sum(1 for p in procs if len(p[1]) == 2)}"
+    out = []
+    dt = rng.choice([0.1, 0.05, 0.2])
+    sample = rng.random() < 0.5
+    obs2 = make_observables(rng, length)
+    sp2 = AnalogSimParams(observables=obs2, elapsed_time=dt, dt=dt, num_traj=1, show_progress=False, solver="MCWF",
+                          sample_timesteps=sample, get_state=True)
+    state, psi_ref = _product_state(rng, length)
+    ctx = mcwf_mod.preprocess_mcwf(state, mpo, nm, sp2)
+    psi_real = np.array(ctx.psi_initial)
+
+    # ------------------------------------------------------------------ me2-rho0: what lindblad integrates from
+    if flavour in ("random", "zero"):
+        sp1 = AnalogSimParams(observables=obs2, elapsed_time=dt, dt=dt, num_traj=1, show_progress=False, solver="Lindblad",
+                              sample_timesteps=True)
+        seen = []
+        orig = lind_mod.solve_ivp
+
+        def spy(fun, t_span, y0, *args, **kw):
+            seen.append(np.array(y0))
+            raise _Stop
+
+        lind_mod.solve_ivp = spy
+        try:
+            lind_mod.lindblad((0, state, nm, sp1, mpo))
+        except _Stop:
+            pass
+        finally:
+            lind_mod.solve_ivp = orig
+        if len(seen) != 1:
+            raise RuntimeError(f"lindblad called solve_ivp {len(seen)} times")
+        y0 = seen[0].reshape(dim, dim)
+        dev = float(np.abs(y0 - np.outer(psi_ref, psi_ref.conj())).max())
+        dev2 = float(np.abs(psi_real - psi_ref).max())
+        out.append({"req": f"purerho {length} 1 | {ctoks(psi_real)}", "impl": cfmt(y0), "kind": "me2-rho0",
+                    "oracle": {"ok": bool(dev <= 1e-12 and dev2 <= 1e-12),
+                               "detail": f"lindblad's y0 vs |psi><psi| of the product state (site 0 leftmost): dev {dev:.2e}; MCWF psi_initial vs the "
+                                         f"same vector: dev {dev2:.2e} (tol 1e-12); site vectors {[t.reshape(-1).tolist() for t in state.tensors]}"},
+                    "sig": f"me2-rho0:L{length}:{sum(1 for z in psi_ref if abs(z.imag) > 1e-9) > 0}", "nontrivial": bool(np.abs(psi_ref.imag).max() > 1e-9)})
+
+    # ------------------------------------------------------------------ the passes
+    sobs2 = list(sp2.sorted_observables)
+    osegs = "".join(" | " + obs_segment(o) for o in sobs2)
+    o_ref = [None if o.gate.name in DIAGNOSTICS else kron_at(length, {(o.sites if not isinstance(o.sites, list) else o.sites[0]):
+                                                                      np.asarray(o.gate.matrix, dtype=complex)}) for o in sobs2]
+    segs = [proc_segment(p) for p in nm.processes]
+    ptxt = "".join(" | " + s for s in segs)
+
+    def pick_positive(p):
+        cand = [i for i in range(len(p)) if p[i] > 1e-9] or [0]
+        return cand[rng.randrange(len(cand))]
+
+    passes = []  # (tag, psi0, r_policy, forced_next)
+    if flavour == "boundary":
+        psi0 = rand_unit(rng, dim)
+        tgt = rng.choice([48, 56, 60, 40, 32]) / 64
+        nxt = _dyadic_vec(rng, dim, tgt)
+        passes += [("at", psi0, lambda pj: pj, nxt),
+                   ("below", psi0, lambda pj: np.nextafter(pj, -1.0), nxt),
+                   ("above", psi0, lambda pj: np.nextafter(pj, 2.0), nxt)]
+        one = _dyadic_vec(rng, dim, 1.0)
+        passes.append(("zero-pj", psi0, lambda pj: 0.0, one))
+        big = _dyadic_vec(rng, dim, rng.choice([72, 80]) / 64)
+        passes.append(("neg-pj", psi0, lambda pj: 0.0, big))
+    elif flavour == "zero":
+        b = basis or [rng.randrange(2) for _ in range(length)]
+        psi0 = np.zeros(dim, complex)
+        psi0[int("".join(map(str, b)), 2)] = 1.0
+        passes += [("jump", psi0, lambda pj: 0.5 * pj if pj > 1e-6 else -1.0, None),
+                   ("nojump", psi0, lambda pj: min(1.5 * pj, 0.5 * (1 + pj)) if pj > 1e-6 else 0.5, None)]
+    elif flavour == "tiny":
+        psi0 = np.zeros(dim, complex)
+        psi0[int("".join(map(str, basis)), 2)] = 1.0
+        nxt = _dyadic_vec(rng, dim, 48 / 64)
+        passes += [("jump", psi0, lambda pj: 0.5 * pj, nxt), ("nojump", psi0, lambda pj: 1.5 * pj, nxt)]
+    else:
+        psi0 = rand_unit(rng, dim)
+        fj, fn = rng.choice([0.5, 0.9, 0.999]), rng.choice([1.001, 1.1, 2.0])
+        passes += [("jump", psi0, lambda pj: min(pj * fj, 0.999) if pj > 1e-4 else -1.0, None),
+                   ("nojump", psi0, lambda pj: min(pj * fn, 0.5 * (1 + pj)) if pj > 1e-4 else 0.5, None)]
+
+    for tag, psi0, r_policy, forced in passes:
+        kind = f"me2-{flavour}" if flavour in ("boundary", "zero", "tiny") else f"me2-{tag}"
+        rec = _one_pass(ctx, psi0, r_policy, pick_positive, forced)
+        ctxt = f"flavour={flavour}/{tag} psi0={psi0.tolist()} forced_next={None if forced is None else forced.tolist()} dt={dt} L={length} terms={terms} procs={procs}"
+        if rec["raised"] is not None:
+            out.append({"req": None, "impl": None, "kind": kind, "sig": f"{kind}:exc", "nontrivial": True,
+                        "oracle": {"ok": False, "detail": f"one MCWF pass raised {rec['raised']}; {ctxt}"}})
+            continue
+        if len(rec["next"]) != 1 or len(rec["r"]) != 1 or rec["out"] is None:
+            raise RuntimeError(f"one MCWF pass expected, saw {len(rec['next'])} propagations, {len(rec['r'])} draws, state {rec['out'] is not None}")
+        nxt, r, cols, outp = rec["next"][0], rec["r"][0], rec["cols"], rec["out"]
+        pj = 1.0 - np.vdot(nxt, nxt).real
+        nops = len(ctx.jump_ops)
+        if rec["choice"]:
+            n_c, p_c, k = rec["choice"][0]
+            branch = f"jump {k} pv " + " ".join(ib.fmt(x) for x in p_c)
+        elif rec["calls"]:
+            k, branch = 0, "nojumpeps"
+        else:
+            k, branch = 0, "nojump"
+        calls = " ".join(str(c) for c in rec["calls"])
+        rho = np.outer(outp, outp.conj())
+        impl = f"{ib.fmt(pj)} {branch} calls{' ' + calls if calls else ''} rho {cfmt(rho)} cols " + " ".join(ib.fmt(x) for x in cols.T.reshape(-1))
+        # ---------------- independent reference
+        nxt_ref = np.array(forced, dtype=complex) if forced is not None else sla.expm(-1j * heff_ref * dt) @ psi0
+        pj_ref = 1.0 - np.vdot(nxt_ref, nxt_ref).real
+        w_ref = np.array([g * np.vdot(l_op @ psi0, l_op @ psi0).real for g, l_op in kept_ref])
+        if rec["choice"] and k < len(kept_ref):
+            post_ref = kept_ref[k][1] @ psi0
+        else:
+            post_ref = nxt_ref
+        post_ref = post_ref / np.linalg.norm(post_ref)
+        exp_cols = []
+        if sample:
+            exp_cols.append([0.0 if o is None else np.vdot(psi0, o @ psi0).real for o in o_ref])
+        exp_cols.append([0.0 if o is None else np.vdot(post_ref, o @ post_ref).real for o in o_ref])
+        exp_cols = np.array(exp_cols).T
+        why = []
+        if abs(pj - pj_ref) > 1e-7:
+            why.append(f"p_jump {pj:.9g} vs reference {pj_ref:.9g}")
+        if cols.shape != exp_cols.shape or float(np.abs(cols - exp_cols).max(initial=0)) > 1e-7:
+            why.append(f"columns {cols.tolist()} vs {exp_cols.tolist()} (initial state resp. NEW state)")
+        if float(np.abs(rho - np.outer(post_ref, post_ref.conj())).max()) > 1e-7:
+            why.append("output state is not the normalised L_k psi resp. the normalised propagated state")
+        if not rec["args_ok"]:
+            why.append("a jump operator was multiplied onto a vector that is not the start-of-step state")
+        margin = 1e-7 if forced is None else 0.0
+        wsum = float(w_ref.sum())
+        if forced is not None and r == pj_ref:
+            if rec["calls"] or rec["choice"]:
+                pass  # the boundary draw: behaviour-equivalent in distribution, left to the correspondence
+        elif r < pj_ref - margin:
+            if wsum >= 2e-15 and not rec["choice"]:
+                why.append(f"r={r!r} < p_jump={pj_ref!r} with total weight {wsum:.3g} but no jump was drawn")
+            if wsum < 5e-16 and rec["choice"]:
+                why.append(f"total weight {wsum:.3g} < 1e-15 but a jump was drawn")
+        elif r > pj_ref + margin and (rec["choice"] or rec["calls"]):
+            why.append(f"r={r!r} >= p_jump={pj_ref!r} but the jump branch was entered")
+        if rec["choice"]:
+            if n_c != len(kept_ref) or wsum <= 0 or len(p_c) != len(kept_ref) or float(np.abs(p_c - w_ref / wsum).max()) > 1e-9:
+                why.append(f"vector handed to choice {p_c.tolist()} vs g|L psi|^2/sum of the PRE-step state {(w_ref / wsum).tolist() if wsum > 0 else None}")
+            if rec["calls"] != list(range(nops)) + [k]:
+                why.append(f"operator products {rec['calls']} vs all {nops} in order, then the chosen {k}")
+        edge = (forced is None and abs(r - pj) < 1e-9) or (0 < wsum < 1e-12 and not (wsum < 8e-16 or wsum > 1.15e-15)) \
+            or (nops == 0 and r < pj)
+        out.append({"req": f"mcwfstep2 {length} {1 if sample else 0} {ib.frac(r)} {k} | {ctoks(psi0)} | {ctoks(nxt)}{osegs}{ptxt}",
+                    "impl": impl, "kind": kind, "edge": bool(edge),
+                    "oracle": {"ok": not why, "detail": ("; ".join(why) if why else f"pass agrees with the independent reference (p_jump {pj:.6g}, r={r:.6g}, "
+                                                                                    f"branch {branch.split(' pv')[0]}, calls {rec['calls']})") + f"; {ctxt}"},
+                    "sig": f"{kind}:{tag}:{shape}:{sample}:{branch.split()[0]}:z{int(rec['choice'] != [] and bool((rec['choice'][0][1] == 0).any()))}",
+                    "nontrivial": len(kept_ref) > 0})
+    return out
